@@ -25,13 +25,19 @@ import (
 	"time"
 
 	"github.com/nsqio/nsq/internal/lg"
+	"github.com/nsqio/nsq/internal/version"
 )
 
 const (
-	vfE4Unit     = int64(1000 * time.Second) // one virtual time unit
-	vfE4Inactive = int64(2500 * time.Second)
-	vfE4TombLife = int64(1500 * time.Second)
-	vfE4Now0     = int64(1000000) * int64(time.Second)
+	vfE4Unit = int64(1000 * time.Second) // one virtual time unit
+	vfE4Now0 = int64(1000000) * int64(time.Second)
+)
+
+// --inactive-producer-timeout / --tombstone-lifetime of the daemon under test, in seconds; the option-edge legs
+// set them to 0 or a negative value (VERIF_E4_INACTIVE_S, VERIF_E4_TOMBLIFE_S)
+var (
+	vfE4Inactive = int64(vfEnvInt("VERIF_E4_INACTIVE_S", 2500)) * int64(time.Second)
+	vfE4TombLife = int64(vfEnvInt("VERIF_E4_TOMBLIFE_S", 1500)) * int64(time.Second)
 )
 
 // Harness-side I/O budget. A harness timeout is NOT a verdict about nsqlookupd: the run ends with
@@ -83,6 +89,10 @@ type vfE4Env struct {
 	topics   []string
 	hist     map[string]int
 	plainID  bool // IDENTIFY without the decoy members (the C15 bystander)
+	// amend: what the run-time choice of a nondeterministic operation turned out to be (read off the
+	// real run); ExecX appends it to the op line so that the model and the oracle can ACCEPT or
+	// refuse it: ` pick=<conn>:<hex topic>,…` (POST /topic/tombstone?topic=*), ` obs=<conn>,…` (qstar)
+	amend string
 }
 
 func vfE4Start(realHTTP bool, topics []string) *vfE4Env {
@@ -606,6 +616,102 @@ func (e *vfE4Env) Exec(line string) string {
 	return out + " | " + e.Queries()
 }
 
+// ExecX: like Exec for lines whose result depends on Go's map iteration order. Returns the line
+// completed with the observed choice (a ` pick=` / ` obs=` token already present, e.g. in a corpus
+// file, is dropped first: another run may choose differently) and the canonical answer.
+func (e *vfE4Env) ExecX(line string) (string, string) {
+	w := strings.Fields(line)
+	var keep []string
+	for _, tok := range w {
+		if !strings.HasPrefix(tok, "pick=") && !strings.HasPrefix(tok, "obs=") {
+			keep = append(keep, tok)
+		}
+	}
+	line = strings.Join(keep, " ")
+	e.amend = ""
+	res := e.Exec(line)
+	if e.amend != "" {
+		line += " " + e.amend
+	}
+	return line, res
+}
+
+type vfE4TombSnap map[[2]string]int64
+
+// tombSnapshot: (topic, peer id) -> tombstonedAt of every tombstoned topic producer (white-box)
+func (e *vfE4Env) tombSnapshot() vfE4TombSnap {
+	m := vfE4TombSnap{}
+	e.l.DB.RLock()
+	for k, pm := range e.l.DB.registrationMap {
+		if k.Category != "topic" {
+			continue
+		}
+		for id, p := range pm {
+			if p.tombstoned {
+				m[[2]string{k.Key, id}] = p.tombstonedAt.UnixNano()
+			} else {
+				m[[2]string{k.Key, id}] = -1
+			}
+		}
+	}
+	e.l.DB.RUnlock()
+	return m
+}
+
+// pickOf: which (peer, topic) entries a wild-card tombstone really marked
+func (e *vfE4Env) pickOf(before, after vfE4TombSnap) string {
+	var xs []string
+	for k, v := range after {
+		if v != -1 && before[k] != v {
+			id, ok := e.addr2id[k[1]]
+			if !ok {
+				id = -1
+			}
+			xs = append(xs, fmt.Sprintf("%d:%s", id, vfHex([]byte(k[0]))))
+		}
+	}
+	if len(xs) == 0 {
+		return "pick=-"
+	}
+	return "pick=" + vfE4Join(xs)
+}
+
+// qstar: GET /channels?topic=* and GET /lookup?topic=* (both iterate the whole registration map)
+func (e *vfE4Env) qstar() string {
+	var parts []string
+	code, b := e.httpDo("GET", "/channels", "topic=*")
+	if code != 200 {
+		parts = append(parts, fmt.Sprintf("C[*]=!%d", code))
+	} else {
+		var r struct{ Channels []string }
+		vfE4MustJSON(b, &r, "/channels")
+		parts = append(parts, "C[*]="+vfE4Join(r.Channels))
+	}
+	code, b = e.httpDo("GET", "/lookup", "topic=*")
+	if code != 200 {
+		e.amend = fmt.Sprintf("obs=%d", code)
+		parts = append(parts, fmt.Sprintf("L[*]=%d", code))
+	} else {
+		var r struct {
+			Channels  []string
+			Producers []vfE4Peer
+		}
+		vfE4MustJSON(b, &r, "/lookup")
+		ps := make([]string, len(r.Producers))
+		ids := make([]string, len(r.Producers))
+		for i, p := range r.Producers {
+			ps[i] = e.peerStr(p)
+			ids[i] = strings.SplitN(ps[i], ":", 2)[0]
+		}
+		e.amend = "obs=" + vfE4Join(ids)
+		if len(ids) == 0 {
+			e.amend = "obs=-"
+		}
+		parts = append(parts, fmt.Sprintf("L[*]=ch=%s;pr=%s", vfE4Join(r.Channels), vfE4Join(ps)))
+	}
+	return "qstar " + strings.Join(parts, " ")
+}
+
 // execOnly runs one timed line without fetching the query answers.
 func (e *vfE4Env) execOnly(w []string) (string, bool) {
 	now, err := strconv.ParseInt(w[0], 10, 64)
@@ -617,6 +723,8 @@ func (e *vfE4Env) execOnly(w []string) (string, bool) {
 	switch w[1] {
 	case "q":
 		out = "q"
+	case "qstar":
+		out = e.qstar()
 	case "identify", "register", "unregister", "ping":
 		id, _ := strconv.Atoi(w[2])
 		wire, ok := e.wire(id, w[1], w[3:])
@@ -639,7 +747,15 @@ func (e *vfE4Env) execOnly(w []string) (string, bool) {
 		e.closeConn(id)
 		out = "closed"
 	case "http":
+		star := w[2] == "tombstone" && w[4] == "2a"
+		var before vfE4TombSnap
+		if star {
+			before = e.tombSnapshot()
+		}
 		code, b := e.httpDo("POST", vfE4HandlerPath[w[2]], vfE4Query(w[3], w[4], w[5], w[6]))
+		if star && code == 200 {
+			e.amend = e.pickOf(before, e.tombSnapshot())
+		}
 		if code == 200 {
 			out = "200"
 		} else {
@@ -648,8 +764,19 @@ func (e *vfE4Env) execOnly(w []string) (string, bool) {
 			out = fmt.Sprintf("%d %s", code, m.Message)
 		}
 	case "raw":
-		code, _ := e.httpDo(w[2], w[3], vfE4Query(w[4], w[5], w[6], w[7]))
+		code, body := e.httpDo(w[2], w[3], vfE4Query(w[4], w[5], w[6], w[7]))
 		out = fmt.Sprintf("status=%d", code)
+		if code == 200 && w[2] == "GET" && w[3] == "/ping" {
+			out += " body=" + vfHex(body) // PlainText decorator: the two bytes "OK"
+		}
+		if code == 200 && w[2] == "GET" && w[3] == "/info" {
+			var m map[string]interface{}
+			if json.Unmarshal(body, &m) == nil && len(m) == 1 && m["version"] == version.Binary {
+				out += " body=version"
+			} else {
+				out += " body=BAD-" + vfHex(body)
+			}
+		}
 	case "stream":
 		id, _ := strconv.Atoi(w[2])
 		var splits []int
